@@ -238,8 +238,8 @@ def _shrink_one(spec_name, viol, budget_s):
 # ------------------------------------------------------------------------------------------------
 def load_known(prop):
     path = os.path.join(VERIF, "known_findings.json")
-    if not os.path.exists(path):
-        return []
+    if not os.path.exists(path) or os.environ.get("VERIF_IGNORE_KNOWN"):
+        return []      # (VERIF_IGNORE_KNOWN=1: used once to produce the replay file of an open finding)
     with open(path) as f:
         data = json.load(f)
     return [e for e in data.get("findings", []) if e.get("property") == prop]
